@@ -988,6 +988,30 @@ def native_method_call(I, name, recv, args, kw):
         kind = seq_of(recv).kind if not isinstance(recv, Opaque) else recv.pykind
         if name == 'format':
             return M.format_opaque(I, recv, tuple(args), kw)
+        if name == 'encode' and kind == 'str' and (not args or args[0] in ('utf-8', 'utf8')) and \
+                any(c[0] == 's' and c[2][1] > 127 for c in seq_of(recv).chunks):
+            # text of unknown length that may hold non-ASCII characters (UTF-8): either every
+            # character is ASCII and the bytes are the code points, or some character is not and the
+            # encoding is strictly longer than the text (at most four bytes per character)
+            s = seq_of(recv)
+            if I.path.choose(2, "utf8-all-ascii") == 0:
+                chunks = []
+                for c in s.chunks:
+                    if c[0] == 'u':
+                        for e in c[1]:
+                            if isinstance(e, int):
+                                if e >= 128:
+                                    raise _pyvc().Infeasible()
+                            else:
+                                I.path.assume(e < 128)
+                        chunks.append(c)
+                    else:
+                        chunks.append(('s', c[1], (c[2][0], min(c[2][1], 127))))
+                return seq_lower(SSeq('bytes', chunks, s.taint))
+            n = s.length()
+            z = fresh("utf8", IntSeq)
+            I.path.assume(z3.And(z3.Length(z) > n, z3.Length(z) <= 4 * n))
+            return SSeq('bytes', [('s', z)], s.taint)
         if name == 'encode' and kind == 'str':
             s = seq_of(recv)
             # utf-8/ascii encode of code points < 128 is the identity; others: out of fragment
